@@ -43,7 +43,7 @@ fn table() {
     t("com/google/a.properties", false, true, Expect::Present); t("com/google/", false, true, Expect::Present); t("net/minecraft/Foo.class.txt", false, true, Expect::Present);
 }
 
-fn mark(side: Side) -> Annotation { Annotation { type_: JS(ENV.to_vec()), pairs: vec![(JS::new("value"), ElementValue::Enum(JS(ENV_TYPE.to_vec()), JS(side.constant().to_vec())))] } }
+fn mark(side: Side) -> Annotation { env_mark(side) }
 
 /// two-pointer merge of duplicate-free key lists; (index in c, index in s) per output position
 fn ref_merge_idx<K: PartialEq>(c: &[K], s: &[K]) -> Vec<(Option<usize>, Option<usize>)> {
@@ -92,7 +92,7 @@ fn judge_model(c: &Class, s: &Class, o: &Class) -> Option<Vec<String>> {
 
 fn canaries() {
     let cfg = gen_cfg();
-    let mut fired: std::collections::BTreeMap<&'static str, bool> = ["unmarked", "shared marked", "wrong side", "dropped", "duplicated", "server order", "client order", "body", "interface unmarked", "one-sided class unmarked", "one-sided class wrong side"].into_iter().map(|k| (k, false)).collect();
+    let mut fired: std::collections::BTreeMap<&'static str, bool> = ["unmarked", "shared marked", "wrong side", "dropped", "duplicated", "server order", "client order", "body", "interface unmarked", "one-sided class unmarked", "one-sided class wrong side", "arrives with the other side's mark"].into_iter().map(|k| (k, false)).collect();
     let mut clean = 0;
     for seed in 0..400u64 {
         let mut rng = Rng::new(0xC13C_A4A7 ^ seed.wrapping_mul(0x9E37_79B9));
@@ -131,6 +131,18 @@ fn canaries() {
             }
         }
         if o.invis_annotations.iter().any(|a| a.type_.0 == ENV_ITFS) { let mut w = o.clone(); w.invis_annotations.retain(|a| a.type_.0 != ENV_ITFS); expect_flag("interface unmarked", &w, "one-sided interface not marked"); }
+        // a server-only method that ARRIVES marked CLIENT (e.g. from an earlier merge): the reference merge adds SERVER and the oracle
+        // is silent; an output that keeps only the mark it arrived with must be flagged
+        if let Some(j) = s.methods.iter().position(|m| !ck.contains(&fk(m))) {
+            let mut s2 = s.clone(); s2.methods[j].invis_annotations.push(mark(Side::Client));
+            let o2 = ref_merge(c, &s2);
+            if let Some(v) = judge_model(c, &s2, &o2) {
+                if !v.is_empty() { die(&format!("the oracle flags the reference merge of a pre-marked input (seed {seed}): {v:?}")); }
+                let mut w = o2.clone();
+                for m in &mut w.methods { if fk(m) == fk(&s2.methods[j]) { m.invis_annotations.retain(|a| *a != mark(Side::Server)); } }
+                if let Some(v) = judge_model(c, &s2, &w) { if v.iter().any(|x| x.contains("server-only method not marked with its side")) { fired.insert("arrives with the other side's mark", true); } else { die(&format!("canary 'arrives with the other side's mark' not flagged (seed {seed}); got {v:?}")); } }
+            }
+        }
         // one-sided class
         let l = emit::Layout::canonical();
         if let Ok(cb) = emit::emit(c, &l) {
